@@ -137,6 +137,7 @@ static uint64_t Table_Probe(struct Table* t, uint64_t i, uint64_t h) {
 
 static void Table_Set(var self, var key, var val);
 static void Table_Set_Move(var self, var key, var val, bool move);
+static void Table_Rehash(struct Table* t, size_t new_size);
 
 static size_t Table_Size_Round(size_t s) {
   return ((s + sizeof(var) - 1) / sizeof(var)) * sizeof(var);
@@ -328,6 +329,10 @@ static void Table_Set_Move(var self, var key, var val, bool move) {
   struct Table* t = self;
   key = cast(key, t->ktype);
   val = cast(val, t->vtype);
+  
+  if (t->nslots is 0) {
+    Table_Rehash(t, Table_Ideal_Size(0));
+  }
   
   uint64_t i = hash(key) % t->nslots;
   uint64_t j = 0;
